@@ -33,6 +33,8 @@ namespace vf {
         S_STOP_REMOVE = 72,        // remove_callback after the unlink attempt
         S_STOP_REMOVE_LOCKED = 73, // remove_callback: state word locked, before the unlink attempt
         S_STOP_ADD_LOCKED = 74,    // add_callback: state word locked, before linking
+        S_STOP_REQ_LOADED = 75,    // lock_and_request_stop: state loaded (no stop yet), before the locking CAS
+        S_STOP_REG_LOADED = 76,    // lock_if_not_stopped: state loaded (no stop yet), before the locking CAS
         S_IQ_POP_LEFT = 80,        // contiguous_index_queue::pop_left between load and CAS
         S_IQ_POP_RIGHT = 81,
         S_DQ_ANCHOR_LOADED = 90,   // deque push/pop: anchor loaded
